@@ -51,17 +51,21 @@ def class_codec(F):
             return None
         return leaf
     answered = []
-    for b1 in range(256):
-        c = eval_expr(parsed['class'], byte_leaf(0, b1), 8) & 0xff
-        m = eval_expr(parsed['method'], byte_leaf(0, b1), 16) & 0xffff
-        if c == 0 and m == 1:
-            answered.append(b1)
     okc = True
-    for b0 in range(256):
-        for b1 in range(0, 256, 1):
-            c = eval_expr(parsed['class'], byte_leaf(b0, b1), 8) & 0xff
-            if c != (((b0 & 1) << 1) | ((b1 >> 4) & 1)):
-                okc = False
+    try:
+        for b1 in range(256):
+            c = eval_expr(parsed['class'], byte_leaf(0, b1), 8) & 0xff
+            m = eval_expr(parsed['method'], byte_leaf(0, b1), 16) & 0xffff
+            if c == 0 and m == 1:
+                answered.append(b1)
+        for b0 in range(256):
+            for b1 in range(0, 256, 1):
+                c = eval_expr(parsed['class'], byte_leaf(b0, b1), 8) & 0xff
+                if c != (((b0 & 1) << 1) | ((b1 >> 4) & 1)):
+                    okc = False
+    except KeyError:
+        # class / method are not functions of the first two message bytes alone: not the RFC 5389 decoder
+        answered, okc = [], False
     return {'parsed': parsed, 'rng': rng, 'answered': answered, 'class_ok': okc, 'new': new}
 
 
@@ -367,5 +371,6 @@ def run(ctx):
         detf = 'change_port <- bit %s, change_ip <- bit %s of the big-endian flag word v[4..8] (required: bit 1 / bit 2 alone)' % (bp, bi_)
     rep.check(r4, okf, 'change-request:flag-bits', detf, '%s:%d' % (tf.file, tf.line))
     dispatch_sound(ctx, 'C15', 'a binding request reaches the STUN responder')
+    no_abort_in(ctx, 'C15', r'proto::stun::', 'answering STUN')
 
 
